@@ -46,6 +46,20 @@ CLAIMED["C16"] = {
   "technique": "seeded model-based history search (deterministic simulation, single actor) with interrupted scopes as the injected fault; stack-of-snapshots reference model",
 }
 
+CLAIMED["C01"] = {
+  "text": "Seeded search over structural edit histories: a generated hex core plus a pool of detached generic composites, and 10-70 steps per run of add / insert / remove / removeAll / setChildren on generic composites, add / insert / remove / reestablishBlockOrder / sort on assemblies, remove / re-add of components on blocks, deep copies and pickle round trips of arbitrary subtrees, and (own configuration) rejected operations. Model: handle -> (parent, ordered children). After every step the whole universe is compared with the model (single parent, listed exactly once, parent back-pointer, removed objects parent-less with a detached locator) and seed-chosen objects are queried through every traversal API (direct, deep, generation 1-4, predicates, flags exact/inexact, type names, leaf components, ancestors with distance) against a naive recursive walk of list(obj); copies are checked for equal shape, no shared node, re-linked parents, grids and locators. Sampling, not proof.",
+  "design_ref": "DESIGN.md §4 (C01)",
+  "note": "Trusted: the naive walkers in worlds/c01.py. add/insert only receive detached objects that are not ancestors of the target; raw append/extend are never used; block edits keep blocks physically meaningful.",
+  "technique": "seeded model-based history search (deterministic simulation, single actor) against a parent/child-map reference model and a naive tree walker",
+}
+
+CLAIMED["C12"] = {
+  "text": "Seeded search over expansion histories on generated pin-type assemblies with a top dummy block (grid plate on/off, 1-4 fuel blocks, plenum on/off, seed-chosen heights): 3-25 steps per run of prescribed expansion of arbitrary solid-component subsets by factors in [0.9,1.12], uniform growth of all solids of seed-chosen blocks, steps followed by their inverse, and thermal expansion by a seed-chosen temperature field, executed by the real AxialExpansionChanger. Ledger checked after every step: total height, contiguity and positivity, centre elevations, axial indices, grid bounds == elevations, block top == top of its target component, target-component mass per step, every solid's mass under uniform growth, uniform step + inverse restores heights/densities/masses, axially linked components stacked bottom-on-top. Sampling, not proof.",
+  "design_ref": "DESIGN.md §4 (C12)",
+  "note": "Trusted: the ledger code in worlds/c12.py. Tolerance 1e-10 relative. Steps predicted to consume the dummy block are skipped; a loud ArithmeticError (negative block height) from armi ends the history as a legal refusal.",
+  "technique": "seeded model-based history search (deterministic simulation, single actor) against a height/contiguity/mass ledger checked after every expansion step",
+}
+
 NA = {
  "C07": "pure function of (grid, index): no event order, clock, I/O or fault to simulate; exhaustive enumeration over N rings is the right tool, not simulation (DESIGN.md §6)",
  "C08": "pure functions of (grid, cell, k) and of a block's contents; rotations appear only as workload in the simulated runs (DESIGN.md §6)",
